@@ -62,7 +62,9 @@ def fresh(job, hashseed, timeout=600):
 def requests_for(big=False, jax=True):
     r = [{"key": "numpy", "backend": "numpy", "schemes": ["explicit_euler", "generalized_rush_larsen"], "repeat": True},
          {"key": "c", "backend": "c", "schemes": ["explicit_euler"]},
-         {"key": "numpy_remove_unused", "backend": "numpy", "schemes": [], "remove_unused": True}]
+         {"key": "numpy_remove_unused", "backend": "numpy", "schemes": [], "remove_unused": True},
+         {"key": "numpy_hybrid", "backend": "numpy", "schemes": ["hybrid_rush_larsen"], "stiff_first": 2, "repeat": True},
+         {"key": "c_hybrid", "backend": "c", "schemes": ["hybrid_rush_larsen"], "stiff_first": 2}]
     if big:
         r = [{"key": "numpy", "backend": "numpy", "schemes": []}]
     elif jax:
